@@ -21,6 +21,8 @@ type famTok struct {
 	sealed bool
 	obs    string
 	name   string
+	raw    []byte // bytes handed out by the first Serialize() of this token (the slice itself)
+	rawHex string
 }
 
 type famBuilder struct {
@@ -126,6 +128,15 @@ func runC08(c *Ctx) {
 					return false
 				}
 				t.obs = o
+				if t.raw == nil {
+					if d, err := t.tok.Serialize(); err == nil {
+						t.raw, t.rawHex = d, hx(d)
+					}
+				} else if hx(t.raw) != t.rawHex {
+					c.Violate("C08/serialized-bytes-changed", "operation '"+op+"' overwrote bytes that an earlier Serialize() of live token "+t.name+" had handed out",
+						map[string]interface{}{"history": append([]string{}, trace...), "token": t.name})
+					return false
+				}
 			}
 			return true
 		}
